@@ -79,13 +79,15 @@ type Report struct {
 	ModulePath     string   `json:"module_path"`
 	Globals        []string `json:"globals"` // package-level vars of the root package
 	GlobalWrites   []string `json:"global_write_sites"`
-	MapRangeSites  []string `json:"map_range_sites"`
+	MapRangeSites  []string `json:"map_range_sites"`  // iteration order left to Go (not seamed)
+	MapRangeSeamed []string `json:"map_range_seamed"` // iteration order decided by the scheduler
 	SwappedImports []string `json:"swapped_imports"`
 	TimeRedirects  int      `json:"time_redirects"`
 	GoStmts        int      `json:"go_stmts"`
 	Unmodelled     []string `json:"unmodelled"`
 	Refusals       []string `json:"refusals"`
 	Knobs          []Knob   `json:"knobs"`
+	StrLits        []string `json:"-"` // distinct short string literals of the source (workload dictionary)
 	TypeCheck      string   `json:"typecheck"`
 	TreeDigest     string   `json:"tree_digest"`
 	SiteDigest     string   `json:"site_digest"`
@@ -249,6 +251,24 @@ func InstrumentShrunk(plainDir, dstDir, simDir string, shrink map[int]string) (*
 		}
 	}
 	collectKnobs(fset, all, rep, info)
+	lits := map[string]bool{}
+	for _, fc := range all {
+		ast.Inspect(fc.f, func(n ast.Node) bool {
+			if _, ok := n.(*ast.ImportSpec); ok {
+				return false
+			}
+			if bl, ok := n.(*ast.BasicLit); ok && bl.Kind == token.STRING {
+				if v, err := strconv.Unquote(bl.Value); err == nil && len(v) >= 2 && len(v) <= 40 {
+					lits[v] = true
+				}
+			}
+			return true
+		})
+	}
+	for l := range lits {
+		rep.StrLits = append(rep.StrLits, l)
+	}
+	sort.Strings(rep.StrLits)
 	for _, k := range rep.Knobs {
 		if txt, ok := shrink[k.ID]; ok {
 			for _, fc := range all {
@@ -497,10 +517,14 @@ func instrumentFile(fset *token.FileSet, fc *fileCtx, rep *Report, info *types.I
 			addSite("range", x.Body.Lbrace)
 			if info != nil {
 				if tv, ok := info.Types[x.X]; ok && tv.Type != nil {
-					switch tv.Type.Underlying().(type) {
+					switch mt := tv.Type.Underlying().(type) {
 					case *types.Map:
 						p := fset.Position(x.Pos())
-						rep.MapRangeSites = append(rep.MapRangeSites, fmt.Sprintf("%s:%d", fc.rel, p.Line))
+						if rewriteMapRange(fset, fc, x, mt, *nextSite) {
+							rep.MapRangeSeamed = append(rep.MapRangeSeamed, fmt.Sprintf("%s:%d", fc.rel, p.Line))
+						} else {
+							rep.MapRangeSites = append(rep.MapRangeSites, fmt.Sprintf("%s:%d", fc.rel, p.Line))
+						}
 					case *types.Chan:
 						p := fset.Position(x.Pos())
 						rep.Refusals = append(rep.Refusals, fmt.Sprintf("%s:%d: range over channel", fc.rel, p.Line))
@@ -860,4 +884,69 @@ func collectKnobs(fset *token.FileSet, all []*fileCtx, rep *Report, info *types.
 		rep.Knobs = append(rep.Knobs, Knob{ID: len(rep.Knobs), File: x.fc.rel, Line: p.Line, Value: x.v, Use: x.use,
 			off: p.Offset, n: fset.Position(x.lit.End()).Offset - p.Offset})
 	}
+}
+
+// rewriteMapRange puts the iteration order of `for k, v := range m` behind a
+// seam: keys are collected, sorted and permuted by the run's PRNG
+// (verifsimrt.MapKeys). Only for maps with ordered basic key types whose
+// range expression is a plain identifier / selector chain.
+func rewriteMapRange(fset *token.FileSet, fc *fileCtx, x *ast.RangeStmt, mt *types.Map, uniq int) bool {
+	kb, ok := mt.Key().Underlying().(*types.Basic)
+	if !ok || kb.Info()&(types.IsInteger|types.IsFloat|types.IsString) == 0 {
+		return false
+	}
+	plain := func(e ast.Expr) bool {
+		for {
+			switch y := e.(type) {
+			case *ast.Ident:
+				return true
+			case *ast.SelectorExpr:
+				e = y.X
+			case *ast.ParenExpr:
+				e = y.X
+			case *ast.StarExpr:
+				e = y.X
+			default:
+				return false
+			}
+		}
+	}
+	if !plain(x.X) {
+		return false
+	}
+	text := func(n ast.Node) string { return string(fc.src[fc.off(fset, n.Pos()):fc.off(fset, n.End())]) }
+	isBlank := func(e ast.Expr) bool {
+		if e == nil {
+			return true
+		}
+		id, ok := e.(*ast.Ident)
+		return ok && id.Name == "_"
+	}
+	if isBlank(x.Key) && isBlank(x.Value) {
+		return false // pure counting loop: order is irrelevant
+	}
+	m := text(x.X)
+	kv := fmt.Sprintf("verifmk%d", uniq)
+	okv := fmt.Sprintf("verifok%d", uniq)
+	hdr := fmt.Sprintf("for _, %s := range %s.MapKeys(%s) {", kv, rtName, m)
+	asg := ":="
+	if x.Tok == token.ASSIGN {
+		asg = "="
+	}
+	var pre string
+	switch {
+	case !isBlank(x.Value) && x.Tok == token.DEFINE:
+		pre = fmt.Sprintf(" %s, %s := (%s)[%s]; if !%s { continue };", text(x.Value), okv, m, kv, okv)
+	case !isBlank(x.Value):
+		pre = fmt.Sprintf(" var %s bool; %s, %s = (%s)[%s]; if !%s { continue };", okv, text(x.Value), okv, m, kv, okv)
+	default:
+		pre = fmt.Sprintf(" if _, %s := (%s)[%s]; !%s { continue };", okv, m, kv, okv)
+	}
+	if !isBlank(x.Key) {
+		pre += fmt.Sprintf(" %s %s %s;", text(x.Key), asg, kv)
+	}
+	start := fc.off(fset, x.For)
+	lb := fc.off(fset, x.Body.Lbrace)
+	fc.replace(start, lb+1-start, hdr+pre)
+	return true
 }
